@@ -158,6 +158,7 @@ def gen_env(g, prof):
     env["stall_max"] = g.pick([30.0, 600.0, 7200.0])
     env["p_configuring"] = g.pick([0.0, 0.2, 0.6])
     env["first_job_id"] = g.pick([8100000, 17, 99999990])
+    env["op_lat"] = g.weighted([(0.0, 6), (0.02, 1), (0.5, 1), (4.0, 1)])
     return env
 
 
@@ -271,9 +272,19 @@ def gen_scenario(ch, prof):
     # spontaneous user commands that compete for the submitter role
     user = []
     for _ in range(g.weighted([(0, 3), (1, 2), (2, 1), (4, 1)]) if prof.get("user_cmds", True) and mode == "hpc" else 0):
-        t = g.pick([0.0, 0.5, 3.0, 12.0, 40.0, 100.0, 700.0, 5000.0]) * (0.5 + g.rint(0, 10) / 10.0)
         cmd = g.weighted([("try-submit-jobs", 3), ("show-status", 2)])
-        user.append({"at": round(t, 3), "cmd": cmd})
+        if g.flip(0.4):
+            # relative trigger: right after the n-th job exit / launch / accepted sbatch, i.e. while
+            # nodes are in the middle of recording results and finishing
+            kind = g.weighted([("job_exit", 3), ("job_launch", 1), ("sbatch", 1)])
+            u = {"cmd": cmd, "after": {"kind": kind, "n": g.rint(1, max(1, n))},
+                 "delay": g.pick([0.0, 0.0, 0.3, 1.0, 5.0, 20.0])}
+            if kind == "sbatch":
+                u["after"]["ok"] = True
+            user.append(u)
+        else:
+            t = g.pick([0.0, 0.5, 3.0, 12.0, 40.0, 100.0, 700.0, 5000.0]) * (0.5 + g.rint(0, 10) / 10.0)
+            user.append({"at": round(t, 3), "cmd": cmd})
     sc["user"] = user
     return sc
 
